@@ -77,11 +77,39 @@ def handleLim (case obs : List String) : String × String :=
     | _, _, _, _ => bad
   | _ => bad
 
+/-- `lim.gen`: a generated client against a generated server, the four limits set through the
+generated builder methods.  The request passes the client's encoding limit and the server's
+decoding limit; every response passes the server's encoding limit and the client's decoding
+limit; the first refusal ends the call with OUT_OF_RANGE. -/
+def handleLimGen (case obs : List String) : String × String :=
+  match case with
+  | _ :: j :: ce :: cd :: se :: sd :: _n :: "Q" :: q :: "R" :: rs =>
+    let o := fun (s : String) => optNat? (if s = "-" then "none" else s)
+    match o ce, o cd, o se, o sd, nat? q, rs.mapM nat? with
+    | some ce, some cd, some se, some sd, some q, some rs =>
+      let nreq := if j = "4" ∨ j = "5" then 2 else 1
+      let reqRefused := encRefuses ce q || decRefuses sd q
+      let respRefused := rs.any (fun r => encRefuses se r || decRefuses cd r)
+      let model := if nreq > 0 ∧ reqRefused then "err11" else if respRefused then "err11" else s!"ok{rs.length}"
+      -- spec, stated directly on the numbers
+      let over := fun (l : Option Nat) (dflt : Option Nat) (x : Nat) =>
+        match l, dflt with
+        | some l, _ => decide (x > l)
+        | none, some d => decide (x > d)
+        | none, none => false
+      let mib4 := 4 * 1024 * 1024
+      let bad := over ce none q || over sd (some mib4) q || rs.any (fun r => over se none r || over cd (some mib4) r)
+      let expected := if bad then "err11" else s!"ok{rs.length}"
+      (model, verdict [("generated-code-hands-the-limits-to-the-codec", String.intercalate " " obs == expected)])
+    | _, _, _, _, _, _ => bad
+  | _ => bad
+
 /-- C06 verdict.  enc: every message before the first oversized one / source error is delivered,
 in order, ahead of the status, whose code is OUT_OF_RANGE for an oversized message; nothing of
 the oversized message is sent.  dec: frames are accepted iff payload length ≤ limit; the first
 oversized one yields OUT_OF_RANGE (even when only its 5-byte prefix has arrived). -/
 def handle (case obs : List String) : String × String :=
+  if case.head? = some "lim.gen" then handleLimGen case obs else
   if case.head? = some "lim.srv" ∨ case.head? = some "lim.cli" then handleLim case obs else
   match model case with
   | none => bad
